@@ -877,6 +877,7 @@ fn run_round_procs(
     late: usize,
     cw: usize,
     sig: usize,
+    sigx: usize,
     pre: Option<(String, usize, usize)>,
     lead: Option<(String, usize)>,
     stats: &mut Stats,
@@ -970,6 +971,23 @@ fn run_round_procs(
                 }
             }
             std::thread::sleep(Duration::from_millis(if round + 1 < sig { 4 } else { 8 }));
+        }
+        // the last `sigx` late creators are signalled until their flock thread has been interrupted five times and
+        // gives up ("File locking was interrupted too many times", file_creation.rs:233-244): err:locking
+        for c in (early..n).rev().take(sigx) {
+            if let Some(k) = &kids[c] {
+                let pid = k.child.id();
+                let t = Instant::now();
+                while t.elapsed() < Duration::from_secs(5) && !k.reader.as_ref().map(|r| r.is_finished()).unwrap_or(true) {
+                    for tid in flock_tids_of(pid) {
+                        unsafe {
+                            libc::syscall(libc::SYS_tgkill, pid as libc::c_long, tid as libc::c_long, libc::SIGUSR1 as libc::c_long);
+                        }
+                        stats.bump("eintr_signals_sent");
+                    }
+                    std::thread::sleep(Duration::from_millis(2));
+                }
+            }
         }
         // the `cw` waiters are killed while they are blocked in flock
         for k in kids.iter().skip(n).flatten() {
@@ -1068,6 +1086,7 @@ fn run_round(ws: &[&str], stats: &mut Stats) -> Vec<String> {
     let late = kv_num(ws, "late", 0).min(n.saturating_sub(1));
     let cw = kv_num(ws, "cw", 0);
     let sig = if mode == "procs" { kv_num(ws, "sig", 0).min(3) } else { 0 };
+    let sigx = if mode == "procs" { kv_num(ws, "sigx", 0).min(late) } else { 0 };
     let fates: Vec<Fate> = list(kv(ws, "fates").unwrap_or("-")).into_iter().map(Fate::parse).collect();
     let sizes: Vec<usize> = list(kv(ws, "sizes").unwrap_or("-")).into_iter().filter_map(|s| s.parse().ok()).collect();
     let seed = kv_num(ws, "seed", 1) as u64;
@@ -1092,7 +1111,7 @@ fn run_round(ws: &[&str], stats: &mut Stats) -> Vec<String> {
             let (point, usec) = p.split_once(':')?;
             Some((point.to_string(), usec.parse().ok()?))
         });
-        run_round_procs(cfg, n, late, cw, sig, pre, lead, stats)
+        run_round_procs(cfg, n, late, cw, sig, sigx, pre, lead, stats)
     } else {
         let (o, c) = run_round_threads(cfg, n, late, cw, stats);
         (None, o, c)
@@ -1144,6 +1163,9 @@ fn run_round(ws: &[&str], stats: &mut Stats) -> Vec<String> {
     }
     if sig > 0 {
         stats.bump("rounds_with_eintr_signals");
+    }
+    if sigx > 0 {
+        stats.bump("rounds_with_eintr_exhaustion");
     }
     if EMPTY_OK.swap(false, Ordering::SeqCst) {
         stats.bump("rounds_with_empty_payload");
@@ -2113,6 +2135,8 @@ impl Prop for C16 {
         push("procs-kill-waiters".into(), round_line("procs", 3, 1, 2, &[], &[3, 2], "-", 2, "-", next_seed()));
         push("procs-fail-kill-waiters".into(), round_line("procs", 3, 0, 1, &[Fate::Fail(1)], &[2, 3], "-", 2, "-", next_seed()));
         push("procs-eintr".into(), round_line_sig("procs", 4, 2, 0, 3, &[], &[2, 3], next_seed()));
+        push("procs-eintr-exhausted".into(), format!("{} sigx=1", round_line_sig("procs", 4, 2, 0, 1, &[], &[2, 3], next_seed())));
+        push("procs-eintr-exhausted-2".into(), format!("{} sigx=2", round_line_sig("procs", 5, 2, 1, 0, &[Fate::Fail(1)], &[3, 2], next_seed())));
         push("procs-eintr-kill-waiters".into(), round_line_sig("procs", 4, 1, 1, 2, &[Fate::Kill(1)], &[3, 2, 2], next_seed()));
         // a writer whose complete payload is empty (an empty file at the final path is then a complete file)
         for mode in ["threads", "procs"] {
@@ -2201,8 +2225,10 @@ impl Prop for C16 {
             lead = "renamefail:0".to_string();
         }
         let presize = rng.range(2, 4) as usize;
-        if sig > 0 && pre == "-" && lead == "-" {
-            return vec![round_line_sig(mode, n, late, cw, sig, &fates, &sizes, seed)];
+        let sigx = if procs && late > 0 && pre == "-" && lead == "-" && rng.chance(1, 5) { 1 } else { 0 };
+        if sig + sigx > 0 && pre == "-" && lead == "-" {
+            let l = round_line_sig(mode, n, late, cw, sig, &fates, &sizes, seed);
+            return vec![if sigx > 0 { format!("{l} sigx={sigx}") } else { l }];
         }
         vec![round_line(mode, n, late, cw, &fates, &sizes, &pre, presize, &lead, seed)]
     }
